@@ -66,6 +66,7 @@ def handleDec (mode : String) (toks : List String) (impl : List String) : String
     let implS := String.intercalate " " impl
     if impl.head? = some "panic" then "VIOL clause=m4.no_panic"
     else if impl.head? = some "hang" then "VIOL clause=m4.no_hang"
+    else if impl.head? = some "hang-skipped" then "SKIP reason=hang-skipped"
     else if impl.head? = some "synth-mismatch" then "BAD"
     else
       let rS := render (decode Spec.expectedTables t file)
